@@ -1,5 +1,6 @@
 import PvModel.Props.C06
 import PvModel.Props.C07Rel
+import PvModel.Props.C06Rel
 #print axioms Pv.C06_step_perm
 #print axioms Pv.C06_finite
 #print axioms Pv.C06_ref
@@ -8,3 +9,5 @@ import PvModel.Props.C07Rel
 #print axioms Pv.C06_prefix_sound
 #print axioms Pv.C06_step_mem
 #print axioms Pv.C06_rel_no_invention
+#print axioms Pv.C06_rel_same_as_dfs
+#print axioms Pv.C06_rel_call_twin
